@@ -713,37 +713,36 @@ theorem discard_acct (m : Mem) (l : LBuf) (size : Nat) (m' : Mem) (l' : LBuf) (k
     exact AcctR.refl m l hs ho
   · exact discard_go_acct _ m l _ _ m' l' k hs ho h
 
-/-- linkedBuffer.ReadByte -/
-theorem readByte_acct (m : Mem) (l : LBuf) (m' : Mem) (l' : LBuf) (b : Nat) (hs : Shape m) (ho : BufOK m l)
-    (h : l.readByte m = some (m', l', b)) : AcctR m l m' l' := by
-  unfold LBuf.readByte at h
-  cases hf : l.front? with
-  | none => rw [hf] at h; cases h
-  | some f =>
-    rw [hf] at h
-    simp only at h
-    have a1 : AcctR m l m (l.setFront (f.read m 1).1) := acct_front f _ _ hs ho hf (key_read m f 1) rfl rfl
-    split at h
-    · simp only [Option.some.injEq, Prod.mk.injEq] at h
-      obtain ⟨rfl, rfl, _⟩ := h
-      exact acct_front f _ _ hs ho hf (key_read m f 1) rfl rfl
-    · cases hn : (l.setFront (f.read m 1).1).readNext m with
-      | none => rw [hn] at h; cases h
-      | some r =>
-        obtain ⟨m2, l2⟩ := r
-        rw [hn] at h
-        simp only at h
-        have a2 := readNext_acct m _ m2 l2 hs a1.ok hn
-        cases hg : l2.front? with
-        | none => rw [hg] at h; cases h
-        | some g =>
-          rw [hg] at h
+theorem readByte_go_acct : ∀ (fuel : Nat) (m : Mem) (l : LBuf) (m' : Mem) (l' : LBuf) (b : Nat), Shape m → BufOK m l →
+    LBuf.readByte.go fuel m l = some (m', l', b) → AcctR m l m' l' := by
+  intro fuel
+  induction fuel with
+  | zero => intro m l m' l' b _ _ h; unfold LBuf.readByte.go at h; cases h
+  | succ k ih =>
+    intro m l m' l' b hs ho h
+    unfold LBuf.readByte.go at h
+    cases hf : l.front? with
+    | none => rw [hf] at h; cases h
+    | some f =>
+      rw [hf] at h
+      simp only at h
+      have a1 : AcctR m l m (l.setFront (f.read m 1).1) := acct_front f _ _ hs ho hf (key_read m f 1) rfl rfl
+      split at h
+      · simp only [Option.some.injEq, Prod.mk.injEq] at h
+        obtain ⟨rfl, rfl, _⟩ := h
+        exact acct_front f _ _ hs ho hf (key_read m f 1) rfl rfl
+      · cases hn : (l.setFront (f.read m 1).1).readNext m with
+        | none => rw [hn] at h; cases h
+        | some r =>
+          obtain ⟨m2, l2⟩ := r
+          rw [hn] at h
           simp only at h
-          split at h
-          · cases h
-          · simp only [Option.some.injEq, Prod.mk.injEq] at h
-            obtain ⟨rfl, rfl, _⟩ := h
-            exact (a1.trans a2).trans (acct_front g _ _ a2.shape a2.ok hg (key_read _ g 1) rfl rfl)
+          have a2 := readNext_acct m _ m2 l2 hs a1.ok hn
+          exact (a1.trans a2).trans (ih m2 l2 m' l' b a2.shape a2.ok h)
+
+theorem readByte_acct (m : Mem) (l : LBuf) (m' : Mem) (l' : LBuf) (b : Nat) (hs : Shape m) (ho : BufOK m l)
+    (h : l.readByte m = some (m', l', b)) : AcctR m l m' l' :=
+  readByte_go_acct _ m l m' l' b hs ho h
 
 /-- linkedBuffer.cleanPinnedList -/
 theorem cleanPinned_acct (m : Mem) (l : LBuf) (hs : Shape m) (ho : BufOK m l) :
